@@ -437,8 +437,8 @@ Hclose(int32 file_id)
     if (BADFREC(file_rec))
         HGOTO_ERROR(DFE_ARGS, FAIL);
 
-    /* version tags */
-    if ((file_rec->refcount > 0) && (file_rec->version.modified == 1))
+    /* version tags (nothing can or may be written to a file opened for reading only) */
+    if ((file_rec->refcount > 0) && (file_rec->version.modified == 1) && (file_rec->access & DFACC_WRITE))
         if (HIupdate_version(file_id) == FAIL)
             HGOTO_ERROR(DFE_INTERNAL, FAIL);
 
